@@ -61,6 +61,16 @@ CHECKS = {
               'allocator-dependent values and out-of-sample dependence are oracle failures).'),
         technique='Lean 4 proof (memory-model refinement, list induction) + fresh-process differential harness under allocator perturbation',
         design='§5 C04'),
+    'C14': dict(
+        text=('Theorems over an executable model of HyperLogLogWCache parametric in the register count, warm-up capacity and an ARBITRARY '
+              'hash: len_run_eq_spec (after ANY insertion sequence the size equals a stateless function of the value SET), hence exact '
+              'while distinct <= W, duplicate-blind and order-independent in BOTH phases, and beyond W the size is the estimate of the '
+              'registers left empty by the value set. PARTIAL: "within 2% up to 2^21" is a property of xxh32\'s distribution (false for '
+              'adversarial values) and is measured, not proved. Tie: the real class with p/m/warmup_size/width overridden to small '
+              'values is compared add by add (phase flag, size) with the model fed the real xxh32 digests; the class constants and the '
+              'real-size sketch (exact to 2^18, duplicate at the boundary, measured error beyond) are checked against the property directly.'),
+        technique='Lean 4 proof (state invariant by induction over the insertion sequence) + differential correspondence harness',
+        design='§5 C14'),
 }
 
 NOT_YET = {}
